@@ -2,4 +2,5 @@
     (properties C04 and C09).  This file only gathers the parts. *)
 From DTN Require Export Proofs.TcpclSentProofs1 Proofs.TcpclSentProofs2 Proofs.TcpclSentProofs3
   Proofs.TcpclSentProofs4 Proofs.TcpclSentProofs5 Proofs.TcpclSentProofs6 Proofs.TcpclSentProofs7
-  Proofs.TcpclSentProofs8 Proofs.TcpclSentProofs9 Proofs.TcpclSentProofs10 Proofs.TcpclSentProofs11.
+  Proofs.TcpclSentProofs8 Proofs.TcpclSentProofs9 Proofs.TcpclSentProofs10 Proofs.TcpclSentProofs11
+  Proofs.TcpclSentProofs12 Proofs.TcpclSentProofs13.
